@@ -1,6 +1,1305 @@
-//! SIM-B placeholder (filled in below)
+//! SIM-B — modification-history simulation: the real, immutable Schedule / Tour / Transition
+//! values are driven through their public API by a seeded operation sequence next to a trivial
+//! reference state; after every operation all invariants and recomputations are evaluated.
+
+use crate::adapter::Adapter;
+use crate::gen::{gen_instance, GenOpts};
+use crate::oracle_out::{viol, Violation};
+use crate::refmodel::*;
+use crate::refstate::*;
+use crate::rng::{digest_str, Rng};
+use crate::seams::{guarded, panic_signature, run_isolated};
+use model::base_types::{NodeIdx, VehicleIdx, VehicleTypeIdx};
+use model::json_serialisation::load_rolling_stock_problem_instance_from_json;
 use serde_json::{json, Value};
-use std::collections::BTreeSet;
-pub fn gen_case(seed: u64, focus: &str) -> Value { json!({"sim":"b","seed":seed,"focus":focus}) }
-pub fn exec_case(_case: &Value, _want: &BTreeSet<String>) -> Value { json!({"outcome":"invalid_case","panic":"SIM-B not built","violations":[]}) }
-pub fn case_candidates(_case: &Value) -> Vec<Value> { vec![] }
+use solution::path::Path;
+use solution::segment::Segment;
+use solution::Schedule;
+use std::collections::{BTreeMap, BTreeSet};
+
+pub fn gen_case(seed: u64, focus: &str) -> Value {
+    let mut rng = Rng::new(seed);
+    let mut g = rng.fork(1);
+    let opts = GenOpts {
+        need_slots: focus == "C11" || focus == "C15" || g.chance(1, 2),
+        no_type_coupling: false,
+        max_segments: if focus == "C11" { 8 } else { 10 },
+        risky: false,
+        id_prefix: String::new(),
+        ties: g.chance(2, 3),
+    };
+    let (instance, summary) = gen_instance(&mut g, &opts);
+    let mut h = rng.fork(2);
+    let hash_key = h.next_u64();
+    let workers = *h.pick(&[1usize, 1, 2, 4]);
+    let mode = match focus {
+        "C11" => "walk",
+        "C15" => "trans",
+        _ => "ops",
+    };
+    let n_ops = match mode {
+        "walk" => h.range(2, 8),
+        "trans" => h.range(3, 30),
+        _ => h.range(1, 40),
+    };
+    let start_mode = *h.pick(&["empty", "mcf", "mcf", "mcf_improved", "greedy"]);
+    json!({
+        "sim": "b", "seed": seed, "focus": focus, "mode": mode, "instance": instance, "hash_key": hash_key,
+        "workers": workers, "ops_seed": h.next_u64(), "n_ops": n_ops, "start": start_mode, "gen": summary,
+        "segment_limit": *h.pick(&[0i64, 1800, 10800]), "overhead_threshold": *h.pick(&[-1i64, 0, 600]),
+    })
+}
+
+pub fn case_candidates(case: &Value) -> Vec<Value> {
+    let mut out = vec![];
+    // drop operations (last first, then halves)
+    if let Some(ops) = case["ops"].as_array() {
+        let n = ops.len();
+        if n > 1 {
+            for k in [n / 2, n / 4] {
+                if k >= 1 && k < n {
+                    let mut c = case.clone();
+                    c["ops"] = Value::Array(ops[n - k..].to_vec());
+                    out.push(c);
+                    let mut c = case.clone();
+                    let mut v = ops[..n - 1 - k.min(n - 1)].to_vec();
+                    v.push(ops[n - 1].clone());
+                    c["ops"] = Value::Array(v);
+                    out.push(c);
+                }
+            }
+            for i in (0..n - 1).rev() {
+                let mut c = case.clone();
+                let mut v = ops.clone();
+                v.remove(i);
+                c["ops"] = Value::Array(v);
+                out.push(c);
+            }
+        }
+    }
+    if case["start"] != json!("empty") && case["ops"].is_array() {
+        let mut c = case.clone();
+        c["start"] = json!("empty");
+        out.push(c);
+    }
+    for i in crate::shrink::instance_candidates(&case["instance"]) {
+        if RefInstance::parse(&i).is_ok() {
+            let mut c = case.clone();
+            c["instance"] = i;
+            out.push(c);
+        }
+    }
+    if case["workers"] != json!(1) {
+        let mut c = case.clone();
+        c["workers"] = json!(1);
+        out.push(c);
+    }
+    if case["hash_key"] != json!(0) {
+        let mut c = case.clone();
+        c["hash_key"] = json!(0);
+        out.push(c);
+    }
+    out
+}
+
+pub struct Ctx {
+    pub inst: RefInstance,
+    pub ad: Adapter,
+    pub names: BTreeMap<String, NodeIdx>,
+    pub out: Vec<Violation>,
+    pub probes: BTreeMap<String, u64>,
+    pub ops_done: Vec<Value>,
+    pub ok_kinds: BTreeSet<String>,
+    pub ok_ops: u64,
+    pub refused_ops: u64,
+    pub steps: u64,
+    pub log: String,
+}
+
+impl Ctx {
+    pub fn name(&self, n: NodeIdx) -> String {
+        self.ad.nw.node(n).id().to_string()
+    }
+    pub fn names_of(&self, ns: &[NodeIdx]) -> Vec<String> {
+        ns.iter().map(|n| self.name(*n)).collect()
+    }
+    pub fn node(&self, s: &str) -> Option<NodeIdx> {
+        self.names.get(s).copied()
+    }
+    pub fn probe(&mut self, k: &str) {
+        *self.probes.entry(k.to_string()).or_insert(0) += 1;
+    }
+    pub fn v(&mut self, prop: &'static str, check: &str, msg: String) {
+        self.out.push(viol(prop, check, msg));
+    }
+}
+
+pub fn parse_vehicle(s: &str) -> Option<VehicleIdx> {
+    if let Some(x) = s.strip_prefix("veh_") {
+        x.parse().ok().map(VehicleIdx::vehicle_from)
+    } else if let Some(x) = s.strip_prefix("dummy_") {
+        x.parse().ok().map(VehicleIdx::dummy_from)
+    } else {
+        None
+    }
+}
+
+fn type_by_name(cx: &Ctx, s: &str) -> Option<VehicleTypeIdx> {
+    cx.inst.type_by_id(s).map(|r| cx.ad.ref_to_type[r])
+}
+
+fn type_name(cx: &Ctx, vt: VehicleTypeIdx) -> String {
+    cx.inst.types[cx.ad.type_to_ref[&vt]].id.clone()
+}
+
+/// REF: may a vehicle of type `vt` start at start-depot node `n` given the snapshot?
+fn depot_has_room(cx: &Ctx, sn: &Snap, n: NodeIdx, vt: VehicleTypeIdx, ignoring: Option<VehicleIdx>) -> bool {
+    match cx.ad.depot_ref_of_node(n) {
+        Some(DepotRef::Overflow) => true,
+        Some(DepotRef::Real(d)) => {
+            let t = cx.ad.type_to_ref[&vt];
+            let dep = &cx.inst.depots[d];
+            // depots that are not given are "unlimited"; the finite number that stands for it is
+            // the repo's own (C17 checks that it is large enough)
+            let (cap_t, cap_total) = if cx.inst.depots_defaulted {
+                let didx = cx.ad.nw.get_depot_idx(n);
+                (cx.ad.nw.capacity_of(didx, vt) as u64, cx.ad.nw.total_capacity_of(didx) as u64)
+            } else {
+                (dep.cap_for(t), dep.total)
+            };
+            let mut same = 0u64;
+            let mut total = 0u64;
+            for (v, (vvt, nodes)) in &sn.vehicles {
+                if Some(*v) == ignoring {
+                    continue;
+                }
+                if nodes.first().and_then(|x| cx.ad.depot_ref_of_node(*x)) == Some(DepotRef::Real(d)) {
+                    total += 1;
+                    if *vvt == vt {
+                        same += 1;
+                    }
+                }
+            }
+            same < cap_t && total < cap_total
+        }
+        None => false,
+    }
+}
+
+fn formation_full(cx: &Ctx, sn: &Snap, n: NodeIdx) -> bool {
+    match cx.ad.node_to_act.get(&n) {
+        Some(&a) => match cx.inst.acts[a].limit() {
+            Some(l) => sn.formations[&n].len() as u64 >= l,
+            None => false,
+        },
+        None => false,
+    }
+}
+
+fn compatible(cx: &Ctx, n: NodeIdx, vt: VehicleTypeIdx) -> bool {
+    match cx.ad.node_to_act.get(&n) {
+        Some(&a) => cx.inst.acts[a].kind == ActKind::Maint || cx.inst.acts[a].vtype == Some(cx.ad.type_to_ref[&vt]),
+        None => true,
+    }
+}
+
+/// frame condition: everything not named is identical in `before` and `after`
+fn check_frame(
+    cx: &mut Ctx,
+    op: &str,
+    before: &Snap,
+    after: &Snap,
+    touched_vehicles: &BTreeSet<VehicleIdx>,
+    touched_nodes: &BTreeSet<NodeIdx>,
+    new_ids: &BTreeSet<VehicleIdx>,
+) {
+    for (v, x) in &before.vehicles {
+        if touched_vehicles.contains(v) {
+            continue;
+        }
+        match after.vehicles.get(v) {
+            Some(y) if x == y => {}
+            Some(y) => cx.v("C13", &format!("C13.{}.frame_other_tour_changed", op), format!("{}: tour of untouched {} changed from {:?} to {:?}", op, v, cx.names_of(&x.1), cx.names_of(&y.1))),
+            None => cx.v("C13", &format!("C13.{}.frame_other_vehicle_lost", op), format!("{}: untouched {} disappeared", op, v)),
+        }
+    }
+    for (v, x) in &before.dummies {
+        if touched_vehicles.contains(v) {
+            continue;
+        }
+        match after.dummies.get(v) {
+            Some(y) if x == y => {}
+            _ => cx.v("C13", &format!("C13.{}.frame_dummy_changed", op), format!("{}: untouched {} changed or disappeared", op, v)),
+        }
+    }
+    for v in after.vehicles.keys().chain(after.dummies.keys()) {
+        if !before.vehicles.contains_key(v) && !before.dummies.contains_key(v) && !new_ids.contains(v) {
+            cx.v("C13", &format!("C13.{}.frame_unexpected_new", op), format!("{}: unexpected new {}", op, v));
+        }
+    }
+    for (n, f) in &before.formations {
+        if touched_nodes.contains(n) {
+            continue;
+        }
+        if after.formations.get(n) != Some(f) {
+            cx.v(
+                "C13",
+                &format!("C13.{}.frame_formation_changed", op),
+                format!("{}: formation of untouched {} changed from {:?} to {:?}", op, cx.name(*n), f, after.formations.get(n)),
+            );
+        }
+    }
+}
+
+/// formation order: `expect` is the exact expected formation of node n
+fn check_formation(cx: &mut Ctx, op: &str, after: &Snap, n: NodeIdx, expect: &[VehicleIdx]) {
+    if after.formations.get(&n).map(|f| f.as_slice()) != Some(expect) {
+        cx.v(
+            "C13",
+            &format!("C13.{}.formation_order", op),
+            format!("{}: formation of {} is {:?}, expected {:?}", op, cx.name(n), after.formations.get(&n), expect),
+        );
+    }
+}
+
+fn without(f: &[VehicleIdx], v: VehicleIdx) -> Vec<VehicleIdx> {
+    f.iter().copied().filter(|x| *x != v).collect()
+}
+fn with_tail(f: &[VehicleIdx], v: VehicleIdx) -> Vec<VehicleIdx> {
+    let mut x = f.to_vec();
+    x.push(v);
+    x
+}
+fn replaced(f: &[VehicleIdx], old: VehicleIdx, new: VehicleIdx) -> Vec<VehicleIdx> {
+    f.iter().map(|x| if *x == old { new } else { *x }).collect()
+}
+
+/// exactly one new dummy holding `service_trips` in order (none if empty); returns its id
+fn check_new_dummy(cx: &mut Ctx, op: &str, before: &Snap, after: &Snap, service_trips: &[NodeIdx], new_ids: &mut BTreeSet<VehicleIdx>) -> Option<VehicleIdx> {
+    let fresh: Vec<VehicleIdx> = after.dummies.keys().filter(|d| !before.dummies.contains_key(d)).copied().collect();
+    if service_trips.is_empty() {
+        if !fresh.is_empty() {
+            cx.v("C13", &format!("C13.{}.unexpected_dummy", op), format!("{}: new dummy {:?} although no service trip was displaced", op, fresh));
+        }
+        return None;
+    }
+    if fresh.len() != 1 {
+        cx.v(
+            "C13",
+            &format!("C13.{}.displaced_trips_not_handed_back", op),
+            format!("{}: displaced service trips {:?} must appear in exactly one new dummy, found {:?}", op, cx.names_of(service_trips), fresh),
+        );
+        for f in fresh {
+            new_ids.insert(f);
+        }
+        return None;
+    }
+    let d = fresh[0];
+    new_ids.insert(d);
+    if after.dummies[&d] != service_trips {
+        cx.v(
+            "C13",
+            &format!("C13.{}.dummy_content", op),
+            format!("{}: new {} holds {:?}, expected {:?}", op, d, cx.names_of(&after.dummies[&d]), cx.names_of(service_trips)),
+        );
+    }
+    Some(d)
+}
+
+fn service_only(cx: &Ctx, ns: &[NodeIdx]) -> Vec<NodeIdx> {
+    ns.iter().copied().filter(|n| cx.ad.nw.node(*n).is_service()).collect()
+}
+
+fn tour_nodes<'a>(sn: &'a Snap, v: VehicleIdx) -> Option<&'a Vec<NodeIdx>> {
+    sn.vehicles.get(&v).map(|x| &x.1).or_else(|| sn.dummies.get(&v))
+}
+
+// -------------------------------------------------------------------------------------------
+// applying one operation
+// -------------------------------------------------------------------------------------------
+
+/// Applies `op` to `s`; returns the new state (or the old one if the operation was refused,
+/// skipped, or panicked).
+pub fn apply_op(cx: &mut Ctx, s: &Schedule, op: &Value) -> Schedule {
+    let kind = op["op"].as_str().unwrap_or("").to_string();
+    let before = snap(&cx.ad, s);
+    let nodes_arg: Vec<NodeIdx> = op["nodes"].as_array().map(|a| a.iter().filter_map(|x| x.as_str().and_then(|n| cx.node(n))).collect()).unwrap_or_default();
+    let all_resolved = op["nodes"].as_array().map(|a| a.len() == nodes_arg.len()).unwrap_or(true);
+    let veh = |k: &str| op[k].as_str().and_then(parse_vehicle);
+    let nd = |cx: &Ctx, k: &str| op[k].as_str().and_then(|n| cx.node(n));
+    let mut new_state: Option<Schedule> = None;
+    let mut refused = false;
+    macro_rules! skip {
+        () => {{
+            cx.probe("op_skipped_precondition");
+            return s.clone();
+        }};
+    }
+    if !all_resolved {
+        skip!();
+    }
+    let opname = kind.as_str();
+    match opname {
+        // ------------------------------------------------------------------------------------
+        "spawn" => {
+            let vt = match op["vt"].as_str().and_then(|t| type_by_name(cx, t)) {
+                Some(t) => t,
+                None => skip!(),
+            };
+            let acts = non_depots(&cx.ad, &nodes_arg);
+            if acts.is_empty() {
+                skip!();
+            }
+            let mismatch = acts.iter().any(|n| !compatible(cx, *n, vt));
+            let full = acts.iter().any(|n| formation_full(cx, &before, *n));
+            let is_path = nodes_arg.windows(2).all(|w| reach(&cx.ad, &cx.inst, w[0], w[1]))
+                && nodes_arg.iter().enumerate().all(|(i, n)| i == 0 || i == nodes_arg.len() - 1 || !cx.ad.nw.node(*n).is_depot())
+                && (nodes_arg.len() < 2 || !cx.ad.nw.node(nodes_arg[0]).is_end_depot())
+                && (nodes_arg.len() < 2 || !cx.ad.nw.node(*nodes_arg.last().unwrap()).is_start_depot());
+            if !is_path {
+                skip!();
+            }
+            let r = guarded(|| s.spawn_vehicle_for_path(vt, nodes_arg.clone()));
+            match r {
+                Err(p) => cx.v("C13", &format!("C13.spawn.panic:{}", panic_signature(&p)), format!("spawn_vehicle_for_path({}, {:?}) panicked: {}", type_name(cx, vt), cx.names_of(&nodes_arg), p)),
+                Ok(Err(e)) => {
+                    refused = true;
+                    if !mismatch && !full {
+                        cx.v("C13", "C13.spawn.refused_valid", format!("spawn_vehicle_for_path({}, {:?}) refused without reason: {}", type_name(cx, vt), cx.names_of(&nodes_arg), e));
+                    }
+                }
+                Ok(Ok((s2, v))) => {
+                    let after = snap(&cx.ad, &s2);
+                    if mismatch {
+                        cx.v("C13", "C13.spawn.accepted_foreign_type", format!("spawn accepted nodes {:?} for type {}", cx.names_of(&nodes_arg), type_name(cx, vt)));
+                    }
+                    if full {
+                        cx.v("C13", "C13.spawn.accepted_full_formation", format!("spawn accepted although a formation on {:?} was full", cx.names_of(&acts)));
+                    }
+                    if before.vehicles.contains_key(&v) || before.dummies.contains_key(&v) || !v.is_real() {
+                        cx.v("C13", "C13.spawn.id_not_fresh", format!("spawn returned id {} which already existed", v));
+                    }
+                    match after.vehicles.get(&v) {
+                        None => cx.v("C13", "C13.spawn.vehicle_missing", format!("spawn returned {} but it is not in the schedule", v)),
+                        Some((t2, ns)) => {
+                            if *t2 != vt {
+                                cx.v("C13", "C13.spawn.type", format!("spawned {} has type {}, asked {}", v, t2, vt));
+                            }
+                            if non_depots(&cx.ad, ns) != acts {
+                                cx.v("C13", "C13.spawn.activities", format!("spawned {} serves {:?}, asked {:?}", v, cx.names_of(ns), cx.names_of(&nodes_arg)));
+                            }
+                            let first = nodes_arg[0];
+                            let given_start = cx.ad.nw.node(first).is_start_depot();
+                            let had_room = given_start && depot_has_room(cx, &before, first, vt, None);
+                            if given_start && had_room && ns.first() != Some(&first) {
+                                cx.v("C13", "C13.spawn.given_start_depot_ignored", format!("spawn: start depot {} had room but {} starts at {}", cx.name(first), v, cx.name(ns[0])));
+                            }
+                            if !ns.is_empty() && !depot_has_room(cx, &before, ns[0], vt, None) {
+                                cx.v("C13", "C13.spawn.start_depot_without_room", format!("spawn: {} starts at {} which has no room", v, cx.name(ns[0])));
+                            }
+                            let last = *nodes_arg.last().unwrap();
+                            if cx.ad.nw.node(last).is_end_depot() && (!given_start || had_room) && ns.last() != Some(&last) {
+                                cx.v("C13", "C13.spawn.given_end_depot_ignored", format!("spawn: end depot {} given but {} ends at {:?}", cx.name(last), v, ns.last().map(|n| cx.name(*n))));
+                            }
+                        }
+                    }
+                    for n in &acts {
+                        check_formation(cx, "spawn", &after, *n, &with_tail(&before.formations[n], v));
+                    }
+                    let tn: BTreeSet<NodeIdx> = acts.iter().copied().collect();
+                    check_frame(cx, "spawn", &before, &after, &BTreeSet::new(), &tn, &[v].into_iter().collect());
+                    new_state = Some(s2);
+                }
+            }
+        }
+        // ------------------------------------------------------------------------------------
+        "spawn_replace_dummy" => {
+            let (d, vt) = match (veh("dummy"), op["vt"].as_str().and_then(|t| type_by_name(cx, t))) {
+                (Some(d), Some(t)) => (d, t),
+                _ => skip!(),
+            };
+            let is_dummy = before.dummies.contains_key(&d);
+            let nodes = before.dummies.get(&d).cloned().unwrap_or_default();
+            let mismatch = nodes.iter().any(|n| !compatible(cx, *n, vt));
+            let full = nodes.iter().any(|n| formation_full(cx, &before, *n));
+            match guarded(|| s.spawn_vehicle_to_replace_dummy_tour(d, vt)) {
+                Err(p) => cx.v("C13", &format!("C13.spawn_replace_dummy.panic:{}", panic_signature(&p)), format!("spawn_vehicle_to_replace_dummy_tour({}, {}) panicked: {}", d, vt, p)),
+                Ok(Err(e)) => {
+                    refused = true;
+                    if is_dummy && !mismatch && !full {
+                        cx.v("C13", "C13.spawn_replace_dummy.refused_valid", format!("spawn_vehicle_to_replace_dummy_tour({}, {}) refused: {}", d, vt, e));
+                    }
+                }
+                Ok(Ok((s2, v))) => {
+                    let after = snap(&cx.ad, &s2);
+                    if !is_dummy || mismatch || full {
+                        cx.v("C13", "C13.spawn_replace_dummy.accepted_invalid", format!("accepted although dummy={} mismatch={} full={}", is_dummy, mismatch, full));
+                    }
+                    if after.dummies.contains_key(&d) {
+                        cx.v("C13", "C13.spawn_replace_dummy.dummy_stays", format!("{} still exists", d));
+                    }
+                    match after.vehicles.get(&v) {
+                        Some((t2, ns)) if *t2 == vt && non_depots(&cx.ad, ns) == nodes => {}
+                        x => cx.v("C13", "C13.spawn_replace_dummy.activities", format!("new {} is {:?}, expected type {} serving {:?}", v, x.map(|y| cx.names_of(&y.1)), vt, cx.names_of(&nodes))),
+                    }
+                    for n in &nodes {
+                        check_formation(cx, "spawn_replace_dummy", &after, *n, &with_tail(&before.formations[n], v));
+                    }
+                    let tn: BTreeSet<NodeIdx> = nodes.iter().copied().collect();
+                    check_frame(cx, "spawn_replace_dummy", &before, &after, &[d].into_iter().collect(), &tn, &[v].into_iter().collect());
+                    new_state = Some(s2);
+                }
+            }
+        }
+        // ------------------------------------------------------------------------------------
+        "replace_by_dummy" => {
+            let v = match veh("v") {
+                Some(v) => v,
+                None => skip!(),
+            };
+            let is_real = before.vehicles.contains_key(&v);
+            match guarded(|| s.replace_vehicle_by_dummy(v)) {
+                Err(p) => cx.v("C13", &format!("C13.replace_by_dummy.panic:{}", panic_signature(&p)), format!("replace_vehicle_by_dummy({}) panicked: {}", v, p)),
+                Ok(Err(e)) => {
+                    refused = true;
+                    if is_real {
+                        cx.v("C13", "C13.replace_by_dummy.refused_valid", format!("replace_vehicle_by_dummy({}) refused: {}", v, e));
+                    }
+                }
+                Ok(Ok(s2)) => {
+                    let after = snap(&cx.ad, &s2);
+                    if !is_real {
+                        cx.v("C13", "C13.replace_by_dummy.accepted_non_vehicle", format!("accepted for {}", v));
+                    } else {
+                        let acts = before.acts(&cx.ad, v);
+                        if after.vehicles.contains_key(&v) {
+                            cx.v("C13", "C13.replace_by_dummy.vehicle_stays", format!("{} still exists", v));
+                        }
+                        let mut new_ids = BTreeSet::new();
+                        check_new_dummy(cx, "replace_by_dummy", &before, &after, &service_only(cx, &acts), &mut new_ids);
+                        for n in &acts {
+                            check_formation(cx, "replace_by_dummy", &after, *n, &without(&before.formations[n], v));
+                        }
+                        let tn: BTreeSet<NodeIdx> = acts.iter().copied().collect();
+                        check_frame(cx, "replace_by_dummy", &before, &after, &[v].into_iter().collect(), &tn, &new_ids);
+                    }
+                    new_state = Some(s2);
+                }
+            }
+        }
+        // ------------------------------------------------------------------------------------
+        "add_path" => {
+            let v = match veh("v") {
+                Some(v) if before.vehicles.contains_key(&v) => v,
+                _ => skip!(),
+            };
+            let (vt, tour) = before.vehicles[&v].clone();
+            let path = match Path::new(nodes_arg.clone(), cx.ad.nw.clone()) {
+                Ok(Some(p)) => p,
+                _ => skip!(),
+            };
+            // only leading start depot / trailing end depot are meaningful in a path
+            if nodes_arg.iter().enumerate().any(|(i, n)| {
+                let node = cx.ad.nw.node(*n);
+                (node.is_start_depot() && i != 0) || (node.is_end_depot() && i != nodes_arg.len() - 1)
+            }) {
+                skip!();
+            }
+            let p_acts = non_depots(&cx.ad, &nodes_arg);
+            let overlap = p_acts.iter().any(|n| tour.contains(n));
+            let mismatch = p_acts.iter().any(|n| !compatible(cx, *n, vt));
+            let full = p_acts.iter().any(|n| !tour.contains(n) && formation_full(cx, &before, *n));
+            let first = nodes_arg[0];
+            let depot_full = cx.ad.nw.node(first).is_start_depot() && first != tour[0] && !depot_has_room(cx, &before, first, vt, Some(v));
+            let (exp_tour, exp_dropped) = ref_insert(&cx.ad, &cx.inst, &tour, false, &nodes_arg);
+            match guarded(|| s.add_path_to_vehicle_tour(v, path)) {
+                Err(p) => cx.v("C13", &format!("C13.add_path.panic:{}", panic_signature(&p)), format!("add_path_to_vehicle_tour({}, {:?}) panicked: {}", v, cx.names_of(&nodes_arg), p)),
+                Ok(Err(e)) => {
+                    refused = true;
+                    if !mismatch && !full && !depot_full && !overlap {
+                        cx.v("C13", "C13.add_path.refused_valid", format!("add_path_to_vehicle_tour({}, {:?}) refused: {}", v, cx.names_of(&nodes_arg), e));
+                    }
+                }
+                Ok(Ok((s2, ret))) => {
+                    let after = snap(&cx.ad, &s2);
+                    if mismatch {
+                        cx.v("C13", "C13.add_path.accepted_foreign_type", format!("accepted {:?} for {}", cx.names_of(&nodes_arg), v));
+                    }
+                    if full {
+                        cx.v("C13", "C13.add_path.accepted_full_formation", format!("accepted {:?} although a formation was full", cx.names_of(&nodes_arg)));
+                    }
+                    if depot_full {
+                        cx.v("C13", "C13.add_path.accepted_full_depot", format!("accepted new start depot {} without room", cx.name(first)));
+                    }
+                    let got_tour = after.vehicles.get(&v).map(|x| x.1.clone()).unwrap_or_default();
+                    if got_tour != exp_tour {
+                        cx.v(
+                            "C12",
+                            if exp_dropped.is_empty() { "C12.insert_no_conflict" } else { "C12.insert_conflict" },
+                            format!("insert {:?} into {:?}: got {:?}, reference {:?}", cx.names_of(&nodes_arg), cx.names_of(&tour), cx.names_of(&got_tour), cx.names_of(&exp_tour)),
+                        );
+                    }
+                    let ret_nodes: Vec<NodeIdx> = ret.map(|p| p.iter().collect()).unwrap_or_default();
+                    if non_depots(&cx.ad, &ret_nodes) != non_depots(&cx.ad, &exp_dropped) {
+                        cx.v(
+                            "C12",
+                            "C12.insert_reported_dropped",
+                            format!("insert {:?} into {:?}: reported dropped {:?}, reference {:?}", cx.names_of(&nodes_arg), cx.names_of(&tour), cx.names_of(&ret_nodes), cx.names_of(&exp_dropped)),
+                        );
+                    }
+                    if !overlap {
+                        let dropped = non_depots(&cx.ad, &exp_dropped);
+                        for n in &p_acts {
+                            check_formation(cx, "add_path", &after, *n, &with_tail(&before.formations[n], v));
+                        }
+                        for n in &dropped {
+                            check_formation(cx, "add_path", &after, *n, &without(&before.formations[n], v));
+                        }
+                    }
+                    let mut tn: BTreeSet<NodeIdx> = p_acts.iter().copied().collect();
+                    tn.extend(non_depots(&cx.ad, &exp_dropped));
+                    tn.extend(non_depots(&cx.ad, &ret_nodes));
+                    check_frame(cx, "add_path", &before, &after, &[v].into_iter().collect(), &tn, &BTreeSet::new());
+                    new_state = Some(s2);
+                }
+            }
+        }
+        // ------------------------------------------------------------------------------------
+        "remove_segment" => {
+            let (v, a, b) = match (veh("v"), nd(cx, "a"), nd(cx, "b")) {
+                (Some(v), Some(a), Some(b)) => (v, a, b),
+                _ => skip!(),
+            };
+            let is_real = before.vehicles.contains_key(&v);
+            let tour = tour_nodes(&before, v).cloned().unwrap_or_default();
+            let expect = if is_real { ref_remove(&cx.ad, &cx.inst, &tour, false, a, b) } else { RefRemove::Refuse("not a real vehicle") };
+            match guarded(|| s.remove_segment(Segment::new(a, b), v)) {
+                Err(p) => cx.v("C13", &format!("C13.remove_segment.panic:{}", panic_signature(&p)), format!("remove_segment([{}..{}], {}) panicked: {}", cx.name(a), cx.name(b), v, p)),
+                Ok(Err(e)) => {
+                    refused = true;
+                    if let RefRemove::Ok(..) = expect {
+                        cx.v("C12", "C12.remove_refused_valid", format!("remove [{}..{}] from {:?} refused: {}", cx.name(a), cx.name(b), cx.names_of(&tour), e));
+                    }
+                }
+                Ok(Ok(s2)) => {
+                    let after = snap(&cx.ad, &s2);
+                    match expect {
+                        RefRemove::Refuse(why) => cx.v(
+                            "C12",
+                            &format!("C12.remove_accepted_invalid:{}", why.replace(' ', "_")),
+                            format!("remove [{}..{}] from {:?} of {} must be refused ({}), but was accepted", cx.name(a), cx.name(b), cx.names_of(&tour), v, why),
+                        ),
+                        RefRemove::Ok(rest, removed) => {
+                            let mut new_ids = BTreeSet::new();
+                            let all_acts = before.acts(&cx.ad, v);
+                            let gone_acts: Vec<NodeIdx> = match &rest {
+                                Some(r) => {
+                                    if after.vehicles.get(&v).map(|x| &x.1) != Some(r) {
+                                        cx.v("C12", "C12.remove_result", format!("remove [{}..{}] from {:?}: got {:?}, reference {:?}", cx.name(a), cx.name(b), cx.names_of(&tour), after.vehicles.get(&v).map(|x| cx.names_of(&x.1)), cx.names_of(r)));
+                                    }
+                                    non_depots(&cx.ad, &removed)
+                                }
+                                None => {
+                                    if after.vehicles.contains_key(&v) {
+                                        cx.v("C13", "C13.remove_segment.emptied_vehicle_stays", format!("{} has no activity left but still exists", v));
+                                    }
+                                    all_acts.clone()
+                                }
+                            };
+                            check_new_dummy(cx, "remove_segment", &before, &after, &service_only(cx, &gone_acts), &mut new_ids);
+                            for n in &gone_acts {
+                                check_formation(cx, "remove_segment", &after, *n, &without(&before.formations[n], v));
+                            }
+                            let tn: BTreeSet<NodeIdx> = gone_acts.iter().copied().collect();
+                            check_frame(cx, "remove_segment", &before, &after, &[v].into_iter().collect(), &tn, &new_ids);
+                        }
+                    }
+                    new_state = Some(s2);
+                }
+            }
+        }
+        // ------------------------------------------------------------------------------------
+        "override_reassign" | "fit_reassign" => {
+            let (p, r, a, b) = match (veh("p"), veh("r"), nd(cx, "a"), nd(cx, "b")) {
+                (Some(p), Some(r), Some(a), Some(b)) if p != r => (p, r, a, b),
+                _ => skip!(),
+            };
+            let (tp, tr) = match (tour_nodes(&before, p), tour_nodes(&before, r)) {
+                (Some(x), Some(y)) => (x.clone(), y.clone()),
+                _ => skip!(),
+            };
+            let (pa, pb) = match (tp.iter().position(|n| *n == a), tp.iter().position(|n| *n == b)) {
+                (Some(x), Some(y)) if x <= y => (x, y),
+                _ => skip!(), // valid arguments: segment end points on the provider's tour, in order
+            };
+            let m: Vec<NodeIdx> = tp[pa..=pb].to_vec();
+            let p_real = before.vehicles.contains_key(&p);
+            let r_real = before.vehicles.contains_key(&r);
+            let rt = before.vehicles.get(&r).map(|x| x.0);
+            let pt = before.vehicles.get(&p).map(|x| x.0);
+            let mismatch = match rt {
+                Some(t) => pt != Some(t) && m.iter().any(|n| !compatible(cx, *n, t)),
+                None => false,
+            };
+            // depots inside a segment make sense only when the receiver is real
+            if !r_real && m.iter().any(|n| cx.ad.nw.node(*n).is_depot()) && opname == "fit_reassign" {
+                skip!();
+            }
+            let rem = ref_remove(&cx.ad, &cx.inst, &tp, !p_real, a, b);
+            let m_acts = non_depots(&cx.ad, &m);
+            if m_acts.is_empty() {
+                skip!(); // a segment holds at least one activity
+            }
+            // the receiver would start at the segment's start depot: needs room for its own type
+            let cross_type_depot_full = match rt {
+                Some(t) if pt != Some(t) && cx.ad.nw.node(m[0]).is_start_depot() && tr.first() != Some(&m[0]) => {
+                    let mut probe = before.clone();
+                    probe.vehicles.remove(&p);
+                    !depot_has_room(cx, &probe, m[0], t, Some(r))
+                }
+                _ => false,
+            };
+            // nodes the receiver already serves (coupled trips): net effect on formations is not specified
+            let overlap = m_acts.iter().any(|n| tr.contains(n));
+            if opname == "override_reassign" {
+                let only_r_real_full = r_real && !p_real && m_acts.iter().any(|n| formation_full(cx, &before, *n));
+                let (exp_r, exp_dropped) = ref_insert(&cx.ad, &cx.inst, &tr, !r_real, &m);
+                match guarded(|| s.override_reassign(Segment::new(a, b), p, r)) {
+                    Err(pn) => cx.v("C13", &format!("C13.override_reassign.panic:{}", panic_signature(&pn)), format!("override_reassign([{}..{}], {}, {}) panicked: {}", cx.name(a), cx.name(b), p, r, pn)),
+                    Ok(Err(e)) => {
+                        refused = true;
+                        if matches!(rem, RefRemove::Ok(..)) && !mismatch && !only_r_real_full && !cross_type_depot_full {
+                            cx.v("C13", "C13.override_reassign.refused_valid", format!("override_reassign([{}..{}], {}, {}) refused: {}", cx.name(a), cx.name(b), p, r, e));
+                        }
+                    }
+                    Ok(Ok((s2, new_dummy))) => {
+                        let after = snap(&cx.ad, &s2);
+                        if mismatch {
+                            cx.v("C13", "C13.override_reassign.accepted_foreign_type", format!("moved {:?} from {} to {} of another type", cx.names_of(&m), p, r));
+                        }
+                        match &rem {
+                            RefRemove::Refuse(why) => cx.v("C12", &format!("C12.remove_accepted_invalid:{}", why.replace(' ', "_")), format!("override_reassign removed [{}..{}] from {:?} of {} which must be refused ({})", cx.name(a), cx.name(b), cx.names_of(&tp), p, why)),
+                            RefRemove::Ok(rest, _) => {
+                                let got_p = tour_nodes(&after, p).cloned();
+                                if got_p != *rest {
+                                    cx.v(
+                                        "C13",
+                                        if rest.is_none() { "C13.override_reassign.emptied_provider_stays" } else { "C13.override_reassign.provider_tour" },
+                                        format!("provider {}: got {:?}, expected {:?}", p, got_p.map(|x| cx.names_of(&x)), rest.as_ref().map(|x| cx.names_of(x))),
+                                    );
+                                }
+                            }
+                        }
+                        let got_r = tour_nodes(&after, r).cloned().unwrap_or_default();
+                        if got_r != exp_r {
+                            cx.v(
+                                "C12",
+                                if exp_dropped.is_empty() { "C12.insert_no_conflict" } else { "C12.insert_conflict" },
+                                format!("override_reassign: insert {:?} into {:?} of {}: got {:?}, reference {:?}", cx.names_of(&m), cx.names_of(&tr), r, cx.names_of(&got_r), cx.names_of(&exp_r)),
+                            );
+                        }
+                        let displaced = non_depots(&cx.ad, &exp_dropped);
+                        let mut new_ids = BTreeSet::new();
+                        if overlap {
+                            cx.probe("override_reassign_overlap");
+                            for d in after.dummies.keys().filter(|d| !before.dummies.contains_key(d)) {
+                                new_ids.insert(*d);
+                            }
+                        } else {
+                            let d = check_new_dummy(cx, "override_reassign", &before, &after, &service_only(cx, &displaced), &mut new_ids);
+                            if d != new_dummy && got_r == exp_r {
+                                cx.v("C13", "C13.override_reassign.returned_dummy", format!("returned dummy {:?} but the new dummy is {:?}", new_dummy, d));
+                            }
+                        }
+                        if got_r == exp_r && !overlap {
+                            for n in &m_acts {
+                                let f = &before.formations[n];
+                                let e = match (p_real, r_real) {
+                                    (true, true) => replaced(f, p, r),
+                                    (false, true) => with_tail(f, r),
+                                    (true, false) => without(f, p),
+                                    (false, false) => f.clone(),
+                                };
+                                check_formation(cx, "override_reassign", &after, *n, &e);
+                            }
+                            if r_real {
+                                for n in &displaced {
+                                    check_formation(cx, "override_reassign", &after, *n, &without(&before.formations[n], r));
+                                }
+                            }
+                        }
+                        let mut tn: BTreeSet<NodeIdx> = m_acts.iter().copied().collect();
+                        tn.extend(displaced.iter().copied());
+                        check_frame(cx, "override_reassign", &before, &after, &[p, r].into_iter().collect(), &tn, &new_ids);
+                        new_state = Some(s2);
+                    }
+                }
+            } else {
+                match guarded(|| s.fit_reassign(Segment::new(a, b), p, r)) {
+                    Err(pn) => cx.v("C13", &format!("C13.fit_reassign.panic:{}", panic_signature(&pn)), format!("fit_reassign([{}..{}], {}, {}) panicked: {}", cx.name(a), cx.name(b), p, r, pn)),
+                    Ok(Err(e)) => {
+                        refused = true;
+                        let only_r_real_full = r_real && !p_real && m_acts.iter().any(|n| formation_full(cx, &before, *n));
+                        if !mismatch && !only_r_real_full && !cross_type_depot_full {
+                            cx.v("C13", "C13.fit_reassign.refused_valid", format!("fit_reassign([{}..{}], {}, {}) refused: {}", cx.name(a), cx.name(b), p, r, e));
+                        }
+                    }
+                    Ok(Ok(s2)) => {
+                        let after = snap(&cx.ad, &s2);
+                        if mismatch {
+                            cx.v("C13", "C13.fit_reassign.accepted_foreign_type", format!("moved nodes of {:?} from {} to {} of another type", cx.names_of(&m), p, r));
+                        }
+                        let ap = before.acts(&cx.ad, p);
+                        let ar = before.acts(&cx.ad, r);
+                        let ap2 = after.acts(&cx.ad, p);
+                        let ar2 = after.acts(&cx.ad, r);
+                        // receiver loses none of its own, gains only nodes of the segment
+                        let lost: Vec<NodeIdx> = ar.iter().copied().filter(|n| !ar2.contains(n)).collect();
+                        if !lost.is_empty() {
+                            cx.v("C13", "C13.fit_reassign.receiver_lost_own", format!("receiver {} lost its own {:?}", r, cx.names_of(&lost)));
+                        }
+                        let gained: Vec<NodeIdx> = ar2.iter().copied().filter(|n| !ar.contains(n)).collect();
+                        if gained.iter().any(|n| !m_acts.contains(n)) {
+                            cx.v("C13", "C13.fit_reassign.receiver_gained_foreign", format!("receiver {} gained {:?}, segment is {:?}", r, cx.names_of(&gained), cx.names_of(&m_acts)));
+                        }
+                        // provider loses exactly what the receiver gained
+                        let gone: Vec<NodeIdx> = ap.iter().copied().filter(|n| !ap2.contains(n)).collect();
+                        let mut g1 = gained.clone();
+                        let mut g2 = gone.clone();
+                        g1.sort();
+                        g2.sort();
+                        // a dummy receiver takes only service trips; slots moved to it are dropped
+                        if r_real && g1 != g2 {
+                            cx.v("C13", "C13.fit_reassign.moved_mismatch", format!("provider {} lost {:?} but receiver {} gained {:?}", p, cx.names_of(&gone), r, cx.names_of(&gained)));
+                        }
+                        if !r_real && service_only(cx, &g2) != { let mut x = service_only(cx, &g1); x.sort(); x } {
+                            cx.v("C13", "C13.fit_reassign.moved_mismatch", format!("provider {} lost {:?} but dummy receiver {} gained {:?}", p, cx.names_of(&gone), r, cx.names_of(&gained)));
+                        }
+                        if ap2.iter().any(|n| !ap.contains(n)) {
+                            cx.v("C13", "C13.fit_reassign.provider_gained", format!("provider {} gained nodes", p));
+                        }
+                        if ap2.is_empty() && (after.vehicles.contains_key(&p) || after.dummies.contains_key(&p)) {
+                            cx.v("C13", "C13.fit_reassign.emptied_provider_stays", format!("provider {} has no activity left but still exists", p));
+                        }
+                        let fresh: Vec<VehicleIdx> = after.dummies.keys().chain(after.vehicles.keys()).filter(|d| !before.dummies.contains_key(d) && !before.vehicles.contains_key(d)).copied().collect();
+                        if !fresh.is_empty() {
+                            cx.v("C13", "C13.fit_reassign.created_vehicle_or_dummy", format!("fit_reassign created {:?}", fresh));
+                        }
+                        for n in &gained {
+                            let f = &before.formations[n];
+                            let e = match (p_real, r_real) {
+                                (true, true) => replaced(f, p, r),
+                                (false, true) => with_tail(f, r),
+                                (true, false) => without(f, p),
+                                (false, false) => f.clone(),
+                            };
+                            check_formation(cx, "fit_reassign", &after, *n, &e);
+                        }
+                        let mut tn: BTreeSet<NodeIdx> = gained.iter().copied().collect();
+                        tn.extend(gone.iter().copied());
+                        check_frame(cx, "fit_reassign", &before, &after, &[p, r].into_iter().collect(), &tn, &BTreeSet::new());
+                        new_state = Some(s2);
+                    }
+                }
+            }
+        }
+        // ------------------------------------------------------------------------------------
+        "improve_depots" | "end_greedy" | "end_consistent" | "recompute_transitions" | "set_transitions" => {
+            let vs: Option<Vec<VehicleIdx>> = op["vs"].as_array().map(|a| a.iter().filter_map(|x| x.as_str().and_then(parse_vehicle)).filter(|v| before.vehicles.contains_key(v)).collect());
+            let types: Option<Vec<VehicleTypeIdx>> = op["types"].as_array().map(|a| a.iter().filter_map(|x| x.as_str().and_then(|t| type_by_name(cx, t))).collect());
+            let mut expected_cycles: Option<BTreeMap<VehicleTypeIdx, Vec<Vec<VehicleIdx>>>> = None;
+            let r: Result<Schedule, String> = match opname {
+                "improve_depots" => {
+                    let mut vs = vs.clone();
+                    if let Some(v) = vs.as_mut() {
+                        v.sort();
+                        v.dedup();
+                    }
+                    guarded(|| s.improve_depots(vs))
+                }
+                "end_greedy" => guarded(|| s.reassign_end_depots_greedily()).and_then(|x| x),
+                "end_consistent" => guarded(|| s.reassign_end_depots_consistent_with_transitions()),
+                "recompute_transitions" => guarded(|| s.recompute_transitions_for(types.clone())),
+                _ => {
+                    // build a full map of transitions by editing the current ones
+                    let script = op["script"].as_array().cloned().unwrap_or_default();
+                    let built = guarded(|| crate::sim_b_trans::build_transitions(cx_ref(cx), s, &script));
+                    match built {
+                        Ok(Some((m, cyc))) => {
+                            expected_cycles = Some(cyc);
+                            guarded(|| s.set_next_day_transitions(m))
+                        }
+                        Ok(None) => skip!(),
+                        Err(p) => Err(p),
+                    }
+                }
+            };
+            match r {
+                Err(p) => cx.v("C13", &format!("C13.{}.panic:{}", opname, panic_signature(&p)), format!("{} panicked or failed: {}", opname, p)),
+                Ok(s2) => {
+                    let after = snap(&cx.ad, &s2);
+                    // no activity changes anywhere
+                    for (v, (_, ns)) in &before.vehicles {
+                        let na = after.vehicles.get(v).map(|x| x.1.clone()).unwrap_or_default();
+                        if non_depots(&cx.ad, ns) != non_depots(&cx.ad, &na) {
+                            cx.v("C13", &format!("C13.{}.activities_changed", opname), format!("{}: activities of {} changed", opname, v));
+                        }
+                        let start_changed = ns.first() != na.first();
+                        let end_changed = ns.last() != na.last();
+                        let may_change_start = opname == "improve_depots" && vs.as_ref().map(|x| x.contains(v)).unwrap_or(true);
+                        let may_change_end = may_change_start || opname == "end_greedy" || opname == "end_consistent";
+                        if (start_changed && !may_change_start) || (end_changed && !may_change_end) {
+                            cx.v("C13", &format!("C13.{}.depot_of_other_vehicle_changed", opname), format!("{}: depots of {} changed from ({},{}) to ({:?},{:?})", opname, v, cx.name(ns[0]), cx.name(*ns.last().unwrap()), na.first().map(|n| cx.name(*n)), na.last().map(|n| cx.name(*n))));
+                        }
+                    }
+                    if before.vehicles.keys().collect::<Vec<_>>() != after.vehicles.keys().collect::<Vec<_>>() || before.dummies != after.dummies || before.formations != after.formations {
+                        cx.v("C13", &format!("C13.{}.vehicles_or_formations_changed", opname), format!("{}: vehicle set, dummies or formations changed", opname));
+                    }
+                    match opname {
+                        "end_consistent" => {
+                            if before.cycles != after.cycles {
+                                cx.v("C13", "C13.end_consistent.cycles_changed", "reassign_end_depots_consistent_with_transitions changed the cycles".into());
+                            }
+                            for cs in after.cycles.values() {
+                                for c in cs {
+                                    for i in 0..c.len() {
+                                        let (v, w) = (c[i], c[(i + 1) % c.len()]);
+                                        if let (Some(x), Some(y)) = (after.vehicles.get(&v), after.vehicles.get(&w)) {
+                                            let e = x.1.last().and_then(|n| cx.ad.depot_ref_of_node(*n));
+                                            let st = y.1.first().and_then(|n| cx.ad.depot_ref_of_node(*n));
+                                            if e != st {
+                                                cx.v("C13", "C13.end_consistent.not_aligned", format!("{} ends in {:?} but its successor {} starts in {:?}", v, e, w, st));
+                                            }
+                                        }
+                                    }
+                                }
+                            }
+                        }
+                        "recompute_transitions" => {
+                            for (vt, cs) in &before.cycles {
+                                let named = types.as_ref().map(|t| t.contains(vt)).unwrap_or(true);
+                                if !named && after.cycles.get(vt) != Some(cs) {
+                                    cx.v("C13", "C13.recompute_transitions.other_type_changed", format!("cycles of unnamed type {} changed", vt));
+                                }
+                            }
+                        }
+                        "set_transitions" => {
+                            if let Some(e) = &expected_cycles {
+                                if *e != after.cycles {
+                                    cx.v("C13", "C13.set_transitions.cycles", format!("cycles after set_next_day_transitions are {:?}, given {:?}", after.cycles, e));
+                                }
+                            }
+                        }
+                        "improve_depots" if vs.is_some() => {
+                            if before.cycles != after.cycles {
+                                cx.v("C13", "C13.improve_depots.cycles_changed", "improve_depots(Some(..)) changed the cycles".into());
+                            }
+                        }
+                        _ => {}
+                    }
+                    new_state = Some(s2);
+                }
+            }
+        }
+        // ------------------------------------------------------------------------------------
+        "swap" => {
+            let r = crate::sim_b_walk::pick_candidate(cx, s, op);
+            match r {
+                Some(s2) => new_state = Some(s2),
+                None => skip!(),
+            }
+        }
+        // ------------------------------------------------------------------------------------
+        "tour_insert" | "tour_remove" | "tour_sub_path" | "tour_conflict" => {
+            crate::sim_b_tour::tour_call(cx, s, &before, op);
+            cx.ops_done.push(op.clone());
+            cx.steps += 1;
+            cx.ok_kinds.insert(kind.clone());
+            cx.ok_ops += 1;
+            return s.clone();
+        }
+        _ => skip!(),
+    }
+    cx.ops_done.push(op.clone());
+    cx.steps += 1;
+    // the input schedule is untouched (persistent data structure)
+    let again = snap(&cx.ad, s);
+    if again != before {
+        cx.v("C13", &format!("C13.{}.input_schedule_modified", opname), format!("{} modified the schedule it was called on", opname));
+    }
+    if refused {
+        cx.refused_ops += 1;
+        cx.probe(&format!("refused_{}", opname));
+    }
+    match new_state {
+        Some(s2) => {
+            cx.ok_ops += 1;
+            cx.ok_kinds.insert(kind.clone());
+            cx.probe(&format!("ok_{}", opname));
+            let sn = snap(&cx.ad, &s2);
+            let ctx = format!("after op #{} {}", cx.ops_done.len(), op);
+            let (ad, inst) = (&cx.ad, &cx.inst);
+            let mut tmp = vec![];
+            check_c10(ad, inst, &s2, &sn, &ctx, &mut tmp);
+            check_c09(ad, inst, &s2, &sn, &ctx, true, &mut tmp);
+            // every check id once per run is enough
+            for v in tmp {
+                if !cx.out.iter().any(|o| o.check == v.check) {
+                    cx.out.push(v);
+                }
+            }
+            if sn.vehicles.values().any(|(_, ns)| ns.first().and_then(|n| cx.ad.depot_ref_of_node(*n)) == Some(DepotRef::Overflow)) {
+                cx.probe("state_with_overflow_tour");
+            }
+            s2
+        }
+        None => s.clone(),
+    }
+}
+
+fn cx_ref(cx: &Ctx) -> &Ctx {
+    cx
+}
+
+// -------------------------------------------------------------------------------------------
+// generating operations from the current state
+// -------------------------------------------------------------------------------------------
+
+fn random_path(cx: &Ctx, rng: &mut Rng, vt: VehicleTypeIdx, max_len: usize, with_depots: bool) -> Vec<NodeIdx> {
+    let cands: Vec<NodeIdx> = cx.ad.node_to_act.keys().copied().filter(|n| compatible(cx, *n, vt)).collect();
+    if cands.is_empty() {
+        return vec![];
+    }
+    let mut path = vec![*rng.pick(&cands)];
+    while path.len() < max_len && rng.chance(3, 5) {
+        let last = *path.last().unwrap();
+        let next: Vec<NodeIdx> = cands.iter().copied().filter(|n| reach(&cx.ad, &cx.inst, last, *n)).collect();
+        if next.is_empty() {
+            break;
+        }
+        // prefer early successors (ties, back-to-back)
+        let mut next = next;
+        next.sort_by_key(|n| cx.inst.acts[cx.ad.node_to_act[n]].start);
+        let k = rng.usize(next.len().min(3));
+        path.push(next[k]);
+    }
+    if with_depots {
+        let starts: Vec<NodeIdx> = cx.ad.nw.start_depot_nodes().collect();
+        let ends: Vec<NodeIdx> = cx.ad.nw.end_depot_nodes().collect();
+        if rng.chance(1, 3) {
+            path.insert(0, *rng.pick(&starts));
+        }
+        if rng.chance(1, 3) {
+            path.push(*rng.pick(&ends));
+        }
+    }
+    path
+}
+
+fn random_segment(cx: &Ctx, rng: &mut Rng, tour: &[NodeIdx], allow_depots: bool) -> Option<(NodeIdx, NodeIdx)> {
+    if tour.is_empty() {
+        return None;
+    }
+    let is_depot = |i: usize| cx.ad.nw.node(tour[i]).is_depot();
+    let idx: Vec<usize> = (0..tour.len()).filter(|&i| allow_depots || !is_depot(i)).collect();
+    if idx.is_empty() {
+        return None;
+    }
+    let i = *rng.pick(&idx);
+    let later: Vec<usize> = idx.iter().copied().filter(|&j| j >= i).collect();
+    let j = if rng.chance(1, 3) { i } else { *rng.pick(&later) };
+    if rng.chance(1, 8) {
+        // whole tour
+        return Some((tour[idx[0]], tour[*idx.last().unwrap()]));
+    }
+    Some((tour[i], tour[j]))
+}
+
+pub fn gen_op(cx: &Ctx, rng: &mut Rng, s: &Schedule, focus: &str) -> Value {
+    let sn = snap(&cx.ad, s);
+    let reals: Vec<VehicleIdx> = sn.vehicles.keys().copied().collect();
+    let dummies: Vec<VehicleIdx> = sn.dummies.keys().copied().collect();
+    let all: Vec<VehicleIdx> = reals.iter().chain(dummies.iter()).copied().collect();
+    let types: Vec<VehicleTypeIdx> = cx.ad.ref_to_type.clone();
+    // weights
+    let mut w: Vec<(&str, u32)> = vec![
+        ("spawn", if reals.len() < 3 { 30 } else { 10 }),
+        ("spawn_replace_dummy", if dummies.is_empty() { 1 } else { 8 }),
+        ("replace_by_dummy", if reals.is_empty() { 1 } else { 6 }),
+        ("add_path", if reals.is_empty() { 0 } else { 14 }),
+        ("remove_segment", if reals.is_empty() { 0 } else { 12 }),
+        ("override_reassign", if all.len() < 2 { 0 } else { 16 }),
+        ("fit_reassign", if all.len() < 2 { 0 } else { 12 }),
+        ("improve_depots", if reals.is_empty() { 0 } else { 6 }),
+        ("end_greedy", 2),
+        ("end_consistent", 4),
+        ("recompute_transitions", 3),
+        ("set_transitions", if reals.len() < 2 { 0 } else { 5 }),
+        ("swap", if reals.is_empty() { 0 } else { 8 }),
+        ("tour_insert", if all.is_empty() { 0 } else { 4 }),
+        ("tour_remove", if all.is_empty() { 0 } else { 3 }),
+        ("tour_sub_path", if all.is_empty() { 0 } else { 3 }),
+        ("tour_conflict", if all.is_empty() { 0 } else { 2 }),
+    ];
+    if focus == "C12" {
+        for x in w.iter_mut() {
+            if x.0.starts_with("tour_") && x.1 > 0 {
+                x.1 *= 8;
+            }
+            if x.0 == "add_path" || x.0 == "remove_segment" || x.0 == "override_reassign" {
+                x.1 *= 2;
+            }
+        }
+    }
+    let k = rng.weighted(&w.iter().map(|x| x.1).collect::<Vec<_>>());
+    let kind = w[k].0;
+    let vname = |v: VehicleIdx| v.to_string();
+    match kind {
+        "spawn" => {
+            let vt = *rng.pick(&types);
+            // sometimes a foreign type on purpose
+            let path_t = if rng.chance(1, 12) { *rng.pick(&types) } else { vt };
+            let path = random_path(cx, rng, path_t, 4, true);
+            json!({"op": "spawn", "vt": type_name(cx, vt), "nodes": cx.names_of(&path)})
+        }
+        "spawn_replace_dummy" => {
+            let d = if dummies.is_empty() || rng.chance(1, 10) { all.first().copied().unwrap_or(VehicleIdx::dummy_from(999)) } else { *rng.pick(&dummies) };
+            let vt = match sn.dummies.get(&d).and_then(|ns| ns.first()).and_then(|n| cx.ad.node_to_act.get(n)).and_then(|a| cx.inst.acts[*a].vtype) {
+                Some(t) if !rng.chance(1, 10) => cx.ad.ref_to_type[t],
+                _ => *rng.pick(&types),
+            };
+            json!({"op": "spawn_replace_dummy", "dummy": vname(d), "vt": type_name(cx, vt)})
+        }
+        "replace_by_dummy" => {
+            let v = if rng.chance(1, 10) && !dummies.is_empty() { *rng.pick(&dummies) } else if reals.is_empty() { VehicleIdx::vehicle_from(999) } else { *rng.pick(&reals) };
+            json!({"op": "replace_by_dummy", "v": vname(v)})
+        }
+        "add_path" => {
+            let v = *rng.pick(&reals);
+            let vt = sn.vehicles[&v].0;
+            let pt = if rng.chance(1, 12) { *rng.pick(&types) } else { vt };
+            let path = random_path(cx, rng, pt, 3, true);
+            json!({"op": "add_path", "v": vname(v), "nodes": cx.names_of(&path)})
+        }
+        "remove_segment" => {
+            let v = if rng.chance(1, 15) && !dummies.is_empty() { *rng.pick(&dummies) } else { *rng.pick(&reals) };
+            let tour = tour_nodes(&sn, v).cloned().unwrap_or_default();
+            let allow = rng.draws % 5 == 0;
+            match random_segment(cx, rng, &tour, allow) {
+                Some((a, b)) => json!({"op": "remove_segment", "v": vname(v), "a": cx.name(a), "b": cx.name(b)}),
+                None => json!({"op": "end_consistent"}),
+            }
+        }
+        "override_reassign" | "fit_reassign" => {
+            let p = *rng.pick(&all);
+            let others: Vec<VehicleIdx> = all.iter().copied().filter(|x| *x != p).collect();
+            // prefer a receiver of the same type
+            let same: Vec<VehicleIdx> = others.iter().copied().filter(|x| sn.vehicles.get(x).map(|y| Some(y.0)) == sn.vehicles.get(&p).map(|y| Some(y.0)) || x.is_dummy()).collect();
+            let r = if !same.is_empty() && rng.chance(4, 5) { *rng.pick(&same) } else { *rng.pick(&others) };
+            let tour = tour_nodes(&sn, p).cloned().unwrap_or_default();
+            let allow_depots = p.is_real() && rng.chance(1, 4);
+            match random_segment(cx, rng, &tour, allow_depots) {
+                Some((a, b)) => json!({"op": kind, "p": vname(p), "r": vname(r), "a": cx.name(a), "b": cx.name(b)}),
+                None => json!({"op": "end_consistent"}),
+            }
+        }
+        "improve_depots" => {
+            if rng.chance(1, 3) {
+                json!({"op": "improve_depots"})
+            } else {
+                let n = rng.range(1, reals.len().min(3) as i64) as usize;
+                let mut vs = reals.clone();
+                rng.shuffle(&mut vs);
+                vs.truncate(n);
+                json!({"op": "improve_depots", "vs": vs.iter().map(|v| vname(*v)).collect::<Vec<_>>()})
+            }
+        }
+        "end_greedy" => json!({"op": "end_greedy"}),
+        "end_consistent" => json!({"op": "end_consistent"}),
+        "recompute_transitions" => {
+            if rng.chance(1, 2) {
+                json!({"op": "recompute_transitions"})
+            } else {
+                json!({"op": "recompute_transitions", "types": [type_name(cx, *rng.pick(&types))]})
+            }
+        }
+        "set_transitions" => {
+            let script = crate::sim_b_trans::gen_script(cx, rng, s, 4);
+            json!({"op": "set_transitions", "script": script})
+        }
+        "swap" => json!({"op": "swap", "kind": rng.usize(4), "pick": rng.next_u64() % 100_000}),
+        "tour_insert" => {
+            let v = *rng.pick(&all);
+            let vt = sn.vehicles.get(&v).map(|x| x.0).unwrap_or_else(|| {
+                sn.dummies.get(&v).and_then(|ns| ns.first()).and_then(|n| cx.ad.node_to_act.get(n)).and_then(|a| cx.inst.acts[*a].vtype).map(|t| cx.ad.ref_to_type[t]).unwrap_or(types[0])
+            });
+            let path = random_path(cx, rng, vt, 3, v.is_real());
+            json!({"op": "tour_insert", "v": vname(v), "nodes": cx.names_of(&path)})
+        }
+        _ => {
+            let v = *rng.pick(&all);
+            let tour = tour_nodes(&sn, v).cloned().unwrap_or_default();
+            let allow = v.is_real() && rng.chance(1, 3);
+            match random_segment(cx, rng, &tour, allow) {
+                Some((a, b)) => json!({"op": kind, "v": vname(v), "a": cx.name(a), "b": cx.name(b)}),
+                None => json!({"op": "end_consistent"}),
+            }
+        }
+    }
+}
+
+pub fn start_state(cx: &mut Ctx, mode: &str) -> Schedule {
+    let nw = cx.ad.nw.clone();
+    match mode {
+        "mcf" | "mcf_improved" => {
+            let r = guarded(|| {
+                let s = solver::min_cost_flow_solver::MinCostFlowSolver::initialize(nw.clone()).solve();
+                if mode == "mcf_improved" {
+                    s.improve_depots(None)
+                } else {
+                    s
+                }
+            });
+            match r {
+                Ok(s) => s,
+                Err(p) => {
+                    cx.probe(&format!("start_state_panicked_mcf:{}", panic_signature(&p)));
+                    Schedule::empty(nw)
+                }
+            }
+        }
+        "greedy" => {
+            // one vehicle per required unit of every service trip, through the public API
+            let mut s = Schedule::empty(nw.clone());
+            for a in 0..cx.inst.acts.len() {
+                if cx.inst.acts[a].kind != ActKind::Service {
+                    continue;
+                }
+                let n = cx.ad.act_to_node[a];
+                let vt = cx.ad.ref_to_type[cx.inst.acts[a].vtype.unwrap()];
+                for _ in 0..cx.inst.served(a) {
+                    if let Ok(Ok((s2, _))) = guarded(|| s.spawn_vehicle_for_path(vt, vec![n])) {
+                        s = s2;
+                    }
+                }
+            }
+            s
+        }
+        _ => Schedule::empty(nw),
+    }
+}
+
+pub fn exec_case(case: &Value, want: &BTreeSet<String>) -> Value {
+    let instance = case["instance"].clone();
+    let inst = match RefInstance::parse(&instance) {
+        Ok(i) => i,
+        Err(e) => return json!({"outcome": "invalid_case", "panic": e, "violations": []}),
+    };
+    let hash_key = case["hash_key"].as_u64().unwrap_or(0);
+    let workers = case["workers"].as_u64().unwrap_or(1) as usize;
+    let case2 = case.clone();
+    let want2 = want.clone();
+    let r = run_isolated(hash_key, workers, move || run_inner(&case2, inst, &want2));
+    match r {
+        Ok(v) => v,
+        Err(p) => json!({
+            "outcome": "panic", "panic": p,
+            "violations": [{"prop": "C06", "check": format!("C06.simb_setup_panic:{}", panic_signature(&p)), "msg": format!("SIM-B set-up (load / start state) panicked: {}", p)}],
+            "digest": digest_str(&p),
+        }),
+    }
+}
+
+fn run_inner(case: &Value, inst: RefInstance, _want: &BTreeSet<String>) -> Value {
+    let nw = match guarded(|| load_rolling_stock_problem_instance_from_json(case["instance"].clone())) {
+        Ok(n) => n,
+        Err(p) => return json!({"outcome": "not_evaluated", "panic": p, "violations": [], "digest": ""}),
+    };
+    let ad = match Adapter::new(&inst, nw.clone()) {
+        Ok(a) => a,
+        Err(e) => return json!({"outcome": "ok", "violations": [{"prop": "C17", "check": "C17.identity", "msg": e}], "digest": ""}),
+    };
+    let mut names = BTreeMap::new();
+    for n in nw.all_nodes() {
+        names.insert(nw.node(n).id().to_string(), n);
+    }
+    let mut cx = Ctx {
+        inst,
+        ad,
+        names,
+        out: vec![],
+        probes: BTreeMap::new(),
+        ops_done: vec![],
+        ok_kinds: BTreeSet::new(),
+        ok_ops: 0,
+        refused_ops: 0,
+        steps: 0,
+        log: String::new(),
+    };
+    let focus = case["focus"].as_str().unwrap_or("C09").to_string();
+    let mode = case["mode"].as_str().unwrap_or("ops").to_string();
+    let mut s = start_state(&mut cx, case["start"].as_str().unwrap_or("empty"));
+    {
+        let sn = snap(&cx.ad, &s);
+        let mut tmp = vec![];
+        check_c10(&cx.ad, &cx.inst, &s, &sn, "start state", &mut tmp);
+        check_c09(&cx.ad, &cx.inst, &s, &sn, "start state", true, &mut tmp);
+        cx.out.extend(tmp);
+    }
+    let mut nontrivial = false;
+    match mode.as_str() {
+        "walk" => {
+            nontrivial = crate::sim_b_walk::run_walk(&mut cx, &mut s, case);
+        }
+        "trans" => {
+            nontrivial = crate::sim_b_trans::run_trans(&mut cx, &s, case);
+        }
+        _ => {
+            let given: Option<Vec<Value>> = case["ops"].as_array().cloned();
+            let n_ops = case["n_ops"].as_u64().unwrap_or(10) as usize;
+            let mut rng = Rng::new(case["ops_seed"].as_u64().unwrap_or(0));
+            let count = given.as_ref().map(|g| g.len()).unwrap_or(n_ops);
+            for i in 0..count {
+                let op = match &given {
+                    Some(g) => g[i].clone(),
+                    None => gen_op(&cx, &mut rng, &s, &focus),
+                };
+                let before_viol = cx.out.len();
+                s = apply_op(&mut cx, &s, &op);
+                cx.log.push_str(&format!("{}|", op));
+                if cx.out.len() > before_viol && given.is_none() {
+                    break; // stop at the first violating operation: the prefix is the replay
+                }
+            }
+        }
+    }
+    if mode == "ops" {
+        nontrivial = cx.ok_ops >= 3 && cx.ok_kinds.len() >= 2;
+    }
+    let mut nt = serde_json::Map::new();
+    for p in ["C09", "C10", "C11", "C12", "C13", "C15"] {
+        nt.insert(p.to_string(), json!(nontrivial));
+    }
+    let final_canon = snap(&cx.ad, &s).canon();
+    let digest = digest_str(&format!("{}#{}#{}", case["instance"], cx.log, final_canon));
+    let mut res = json!({
+        "outcome": "ok",
+        "violations": cx.out.iter().map(|v| json!({"prop": v.prop, "check": v.check, "msg": v.msg})).collect::<Vec<_>>(),
+        "probes": cx.probes,
+        "nontrivial": nt,
+        "digest": digest,
+        "steps": cx.steps,
+        "stats": {"ops_ok": cx.ok_ops, "ops_refused": cx.refused_ops, "kinds": cx.ok_kinds},
+    });
+    if !cx.out.is_empty() && case.get("ops").is_none() && (mode == "ops" || mode == "trans") {
+        let mut c = case.clone();
+        c["ops"] = Value::Array(cx.ops_done.clone());
+        res["case_override"] = c;
+    }
+    if !cx.out.is_empty() && mode == "walk" {
+        let mut c = case.clone();
+        c["n_ops"] = json!(cx.steps.max(1));
+        res["case_override"] = c;
+    }
+    res
+}
